@@ -715,6 +715,11 @@ int dhcp_fastpath_prog(struct xdp_md *ctx) {
 	/* Determine reply type */
 	__u8 reply_type = (msg_type == DHCP_DISCOVER) ? DHCP_OFFER : DHCP_ACK;
 
+	/* The reply is built in place: make sure the options area can hold it
+	 * BEFORE touching any header, so that a frame handed to the slow path
+	 * with XDP_PASS is still the frame that was received. */
+	CHECK_BOUNDS_PASS(pkt.dhcp->options, pkt.data_end, MAX_DHCP_REPLY_OPTIONS_LEN);
+
 	/* === Build DHCP Reply === */
 
 	/* Check if packet was relayed (giaddr != 0) */
@@ -766,8 +771,6 @@ int dhcp_fastpath_prog(struct xdp_md *ctx) {
 	__builtin_memset(pkt.dhcp->file, 0, sizeof(pkt.dhcp->file));
 
 	/* Build DHCP options */
-	CHECK_BOUNDS_PASS(pkt.dhcp->options, pkt.data_end, MAX_DHCP_REPLY_OPTIONS_LEN);
-
 	int opt_len = build_dhcp_options(pkt.dhcp->options, pkt.data_end,
 	                                  reply_type, pool, assignment,
 	                                  server_ip);
